@@ -106,7 +106,7 @@ def local_names(f):
 def gen(pm, which):
     out = []
     for rel, src in pm.sources.items():
-        if not rel.endswith(".py") or "/tests/" in rel or "__init__" in rel:
+        if not rel.endswith(".py") or "/tests/" in rel or "__init__" in rel or "import numpy as np" not in src:
             continue
         tree = ast.parse(src)
         funcs = [n for n in ast.walk(tree) if isinstance(n, ast.FunctionDef)]
